@@ -2,9 +2,10 @@ import RegexVerif.Sexp
 import RegexVerif.Model.AutoAtomic
 import RegexVerif.Driver.SpecIO
 import RegexVerif.Driver.C04
+import RegexVerif.Driver.C05Rw
 
 namespace RegexVerif.Driver
-open RegexVerif Sexp Spec AutoAtomic
+open RegexVerif Sexp Spec AutoAtomic RewriteDecisions
 
 def siteSexp : Site → Sexp
   | .acc p => mk "acc" [predSexp p]
@@ -37,7 +38,38 @@ def tableOracle (dj : List (Pred × Pred)) (un : List Pred) : Oracle :=
 
     `(c05 endfix <p'>)` → `(ok 0|1)`: is the tree a fixed point of `endAtomicTop`? -/
 def handleC05 (args : List Sexp) : String :=
+  match handleC05Rw args with
+  | some s => s
+  | none =>
   match args with
+  | [.atom "rwcert", rtl, n, n', dj, un] =>
+    -- `(c05 rwcert <rtl> <un-rewritten n-ary tree> <rewritten n-ary tree> (disj …) (uni …))` →
+    -- `(ok <certified 0|1> <ll-agrees 0|1> (made N) (errs E…) (mid <rnode>))`: Lean's model of the gated
+    -- rewrites (`reduceAll`, the proved variant) applied to the un-rewritten tree gives `mid`; `cert`
+    -- (Model/AutoAtomic.lean) then validates `toPat mid` against the engine's rewritten tree.
+    -- Props.C05.rewrites_certified: certified ⇒ same `find` from every start.
+    match rtl.bool?, rnode? n, rnode? n', tagged? "disj" dj, tagged? "uni" un with
+    | some rtl, some n, some n', some dj, some un =>
+      match dj.mapM predPair?, un.mapM pred? with
+      | some dj, some un =>
+        let o := tableOracle dj un
+        let fuel := 2 * size n + 8
+        let p' := toPat rtl n'
+        let answer (dg : Bool) : Bool × String :=
+          let mid := rewriteTop false dg fuel rtl n
+          let midLL := rewriteTop true dg fuel rtl n
+          let p := toPat rtl mid
+          let r := (cert o rtl p p').close
+          let ok := certTopDir o rtl p p'
+          let same := RNode.same mid midLL
+          (ok && same, toString (Sexp.list [.atom "ok", ofBool ok, ofBool same,
+            mk "made" [ofNat r.made], mk "errs" (r.errs.map errSexp), mk "mid" [rnodeSexp midLL], mk "dg" [ofBool dg]]))
+        let a1 := answer true
+        if a1.1 then a1.2 else
+        let a0 := answer false
+        if a0.1 then a0.2 else a1.2
+      | _, _ => "(bad-oracle)"
+    | _, _, _, _, _ => "(bad-args)"
   | [.atom "cert", rtl, p, p', dj, un] =>
     match rtl.bool?, pat? p, pat? p', tagged? "disj" dj, tagged? "uni" un with
     | some rtl, some p, some p', some dj, some un =>
